@@ -82,11 +82,11 @@ impl Interp {
                 r
             }
             "fp" => {
-                // `fp <id> <k> <x…>`: `filter` while the k-th order comparison of the instrumented sample type panics
-                // (if the call makes fewer comparisons it is an ordinary `f`); the panic is contained here, the
+                // `fp <id> <k> <x…>`: `filter` while the k-th operation (comparison, clone, arithmetic) of the instrumented sample type panics
+                // (if the call makes fewer it is an ordinary `f`); the panic is contained here, the
                 // instance survives in whatever state the unwinding left it
                 let i = id(toks[1]);
-                let k: u64 = toks[2].parse().expect("harness: bad comparison budget");
+                let k: u64 = toks[2].parse().expect("harness: bad operation budget");
                 let args: Vec<Val> = toks[3..].iter().map(|s| parse_val(s)).collect();
                 let inst = self.insts.get_mut(&i).expect("harness: unknown id");
                 crate::tracked::set_cmp_budget(Some(k));
